@@ -226,6 +226,7 @@ package keeper
 //@   requires supWF(coin.Denom) && coin.Amount >= 0
 //@   let r = SUP(coin.Denom)
 //@   modifies supplies
+//@   ensures succeeds: old(has(supplies, coin.Denom)) && r.CurrentSupply.Amount >= coin.Amount ==> err == nil
 //@   ensures counted: err == nil ==> old(has(supplies, coin.Denom)) && r.CurrentSupply.Amount >= coin.Amount
 //@                    && supplies == set(old(supplies), coin.Denom, with(r, "CurrentSupply", addTo(r.CurrentSupply, 0 - coin.Amount)))
 //@   ensures keeps_wf: err == nil ==> supWF(coin.Denom)
